@@ -332,8 +332,26 @@ class Out:
         return self.fd
 
 
+class BufferedOut(Out):
+    """A buffered display stream (the shape of sys.stdout.buffer next to an unbuffered /dev/tty command stream): bytes reach
+    the pty only at flush()."""
+
+    def __init__(self, fd, tag, rig):
+        super().__init__(fd, tag, rig)
+        self.buf = b""
+
+    def write(self, b):
+        self.buf += bytes(b)
+        return len(b)
+
+    def flush(self):
+        if self.buf:
+            data, self.buf = self.buf, b""
+            Out.write(self, data)
+
+
 class Rig:
-    def __init__(self, W, H):
+    def __init__(self, W, H, buffered=False):
         self.master, self.slave = pty.openpty()
         tty.setraw(self.slave)
         fcntl.ioctl(self.slave, termios.TIOCSWINSZ, struct.pack("HHHH", H, W, W * 8, H * 16))
@@ -344,7 +362,7 @@ class Rig:
         self.stop = False
         self.cv = threading.Condition()
         self.fds = [os.dup(self.slave) for _ in range(4)]
-        self.out_display = Out(self.fds[0], "d", self)
+        self.out_display = (BufferedOut if buffered else Out)(self.fds[0], "d", self)
         self.out_command = Out(self.fds[1], "c", self)
         self.in_response = os.fdopen(self.fds[2], "rb", buffering=0)
         self.in_userinput = os.fdopen(self.fds[3], "rb", buffering=0)
@@ -533,7 +551,8 @@ def run_impl(tup, case):
     """Runs the op sequence on a real GraphicsTerminal.  Returns per-op records."""
     GT = tup.graphics_terminal.GraphicsTerminal
     gc = tup.graphics_command
-    rig = Rig(case["W"], case["H"])
+    buffered = bool(case.get("buffered"))
+    rig = Rig(case["W"], case["H"], buffered=buffered)
     recs = []
     try:
         term = GT(out_command=rig.out_command, out_display=rig.out_display, in_response=rig.in_response,
@@ -602,6 +621,14 @@ def run_impl(tup, case):
                     raise RuntimeError(k)
             except (ValueError, IndexError, TimeoutError) as e:
                 res = type(e).__name__
+            if buffered:
+                # the display stream holds its bytes back: the terminal is looked at only after the calls that may ask it
+                # (and at the end); the harness flushes there, never in between
+                if k not in ("q", "qt", "put", "ph") and o is not case["ops"][-1]:
+                    tr = term.tracked_cursor_position
+                    recs.append({"bytes": b"", "g": b"", "tracked": None if tr is None else (tr[0], tr[1]), "res": res, "vt": None, "cursor": None, "synced": True, "mflag": None})
+                    continue
+                rig.out_display.flush()
             synced = rig.sync()
             chunks = rig.chunks[start:]
             g = b""
@@ -764,8 +791,44 @@ def run(ctx, model):
             cov.bump("reset/by-scrolling" if case["scroll"] else "reset/RIS")
         if len(ctx.violations) >= 400 or len(ctx.corr_breaks) >= 40:
             break
+    buffered_display(ctx, tup, cov)
     report_extra_classes(ctx)
     return cov
+
+
+def buffered_display(ctx, tup, cov):
+    """The stream pair of a default terminal: out_display BUFFERED, out_command unbuffered, both on the same pty.  What the
+    terminal object believes must hold for the bytes it has written so far, flushed or not: it has to flush the display
+    stream itself before it asks the terminal where the cursor is.  Oracle only (no model comparison: the order in which
+    the two streams reach the pty is the point here); observed after every call that may ask, and at the end."""
+    fixed = [
+        {"W": 80, "H": 24, "scroll": False, "ops": [{"op": "abs", "c": 0, "r": 0, "pos": True}, {"op": "wr", "b": b"hello".hex(), "str": False}, {"op": "qt"}]},
+        {"W": 80, "H": 24, "scroll": False, "ops": [{"op": "rst"}, {"op": "wr", "b": (b"x" * 78).hex(), "str": False},
+                                                     {"op": "put", "kind": "put", "image": 7, "pl": 1, "cols": 10, "rows": 1, "dnm": None}]},
+        {"W": 10, "H": 5, "scroll": False, "ops": [{"op": "wr", "b": b"ab\r\ncd".hex(), "str": False}, {"op": "q"}, {"op": "mv", "r": 2, "d": None, "l": None, "u": None}, {"op": "qt"}]},
+    ]
+    cases = fixed + [gen_case(ctx, 10**6 + i) for i in range(ctx.pick(150, 3000))]
+    for case in cases:
+        case = dict(case, buffered=True)
+        recs = run_impl(tup, case)
+        hist = []
+        for i, (o, rec) in enumerate(zip(case["ops"], recs)):
+            hist.append(o)
+            if rec["cursor"] is None:
+                continue
+            cov.bump("buffered-display/observed-" + ("known" if rec["tracked"] is not None else "unknown"))
+            if not rec["synced"]:
+                ctx.corr_breaks.append({"what": "terminal thread did not consume the output in time (buffered display stream)", "case": {"ops": hist[-5:]}})
+                break
+            if rec["tracked"] is not None and tuple(rec["tracked"]) != tuple(rec["cursor"]):
+                ctx.violations.append({"signature": {"class": "asks-before-flushing-the-display-stream" if o["op"] in ("q", "qt", "put", "ph") else "other/" + o["op"]},
+                                       "what": f"buffered display stream next to an unbuffered command stream: after {o['op']} the terminal object believes the cursor is at "
+                                               f"{rec['tracked']}, the terminal's cursor is at {rec['cursor']} ({case['W']}x{case['H']} screen, op #{i})",
+                                       "case": {"kind": "history", "W": case["W"], "H": case["H"], "scroll": case["scroll"], "ops": hist[:], "buffered": True}})
+                break
+        cov.add({"buffered": True, "W": case["W"], "H": case["H"], "ops": len(case["ops"]), "first": case["ops"][:3]}, klass="buffered-display/history")
+        if len(ctx.violations) >= 20:
+            break
 
 
 def report_extra_classes(ctx):
@@ -788,13 +851,13 @@ def replay(ctx, model, rec):
     case = rec["case"]
     common.scrub_process_env()
     tup = common.import_impl()
-    c = {"W": case["W"], "H": case["H"], "scroll": case["scroll"], "ops": case["ops"]}
+    c = {"W": case["W"], "H": case["H"], "scroll": case["scroll"], "ops": case["ops"], "buffered": case.get("buffered", False)}
     recs = run_impl(tup, c)
     trace = []
     bad = None
     for i, (o, r) in enumerate(zip(c["ops"], recs)):
         trace.append({"op": o, "tracked": r["tracked"], "terminal_cursor": r["cursor"], "result": r["res"]})
-        if r["tracked"] is not None and tuple(r["tracked"]) != tuple(r["cursor"]) and bad is None:
+        if r["tracked"] is not None and r["cursor"] is not None and tuple(r["tracked"]) != tuple(r["cursor"]) and bad is None:
             bad = i
     # the extracted Spec on the same bytes (the Python terminal above is only a transcription)
     spec = None
